@@ -106,6 +106,9 @@ func (o *c09) Step(r *StepRec) []Violation {
 				if cb.React == "pause" {
 					want = stPaused
 				}
+				if cb.React == "start" {
+					want = stRunning
+				}
 				if p1.State != want {
 					o.fail("c09:react_lost:"+cb.React, "the module's %s of context %s inside its response callback succeeded, but the context is %s after %s", cb.React, short(cb.Ctx), stateName(p1.State), a.Kind)
 				}
@@ -177,7 +180,8 @@ func (o *c09) Step(r *StepRec) []Violation {
 			legal := false
 			switch {
 			case reacted[id] == "kill" && p0.State == stRunning && p1.State == stCompleted,
-				reacted[id] == "pause" && p0.State == stRunning && p1.State == stPaused:
+				reacted[id] == "pause" && p0.State == stRunning && p1.State == stPaused,
+				reacted[id] == "start" && p0.State == stPaused && p1.State == stRunning:
 				legal = p0.Repeated && p0.ModuleName != "" // its module killed / paused it from inside the response callback
 			case a.Kind == KRestart && p1.State == stPaused:
 				legal = true // a zero-height restart leaves every context paused
@@ -253,7 +257,8 @@ func (o *c09) Step(r *StepRec) []Violation {
 		}
 		if p1.BatchCounter > p0.BatchCounter {
 			_, killedLater := killedAt[id] // issued its batch, then killed by its module later in the same block (checked above)
-			if p1.BatchCounter != p0.BatchCounter+1 || a.Kind != KEndBlock || p0.State != stRunning || (p1.State != stRunning && !(killedLater && p1.State == stCompleted)) {
+			resumed := reacted[id] == "start" && p0.State == stPaused // started by its module from inside the response callback of this block's expiry, then due
+			if p1.BatchCounter != p0.BatchCounter+1 || a.Kind != KEndBlock || (p0.State != stRunning && !resumed) || (p1.State != stRunning && !(killedLater && p1.State == stCompleted)) {
 				o.fail("c09:counter:"+a.Kind, "batch counter of %s went %d -> %d in %s (state %s -> %s)", short(id), p0.BatchCounter, p1.BatchCounter, a.Kind, stateName(p0.State), stateName(p1.State))
 			}
 			o.hit("batch_started")
@@ -301,7 +306,7 @@ func (o *c09) Step(r *StepRec) []Violation {
 	if a.Kind == KEndBlock {
 		for _, id := range NewReqs(r) {
 			cid := hx(post.Reqs[id].RequestContextId)
-			if rc, ok := pre.Ctxs[cid]; !ok || rc.State != stRunning {
+			if rc, ok := pre.Ctxs[cid]; !ok || (rc.State != stRunning && !(reacted[cid] == "start" && rc.State == stPaused)) {
 				o.fail("c09:issue_not_running", "request issued for context %s that was not running", short(cid))
 			}
 		}
